@@ -30,7 +30,9 @@ seed rule recomputed here; equal keys (6th server) may come in either order.  Ev
 
 Grid half (Engine G, default schedule): 3-5 real storage servers of which 1-2 are not permitted;
 an immutable upload and an SDMF / MDMF create + overwrite must never send allocate_buckets / a
-test-and-set write / write / close to an unpermitted server.
+test-and-set write / write / close to an unpermitted server.  Second history: a 1-of-4 mutable file is
+created on 2-5 servers that are all permitted; then server b loses its certificate and server d leaves
+(every ordered pair b != d); the overwrite must not place any share number newly on b.
 """
 import contextlib
 import hashlib
@@ -315,6 +317,10 @@ def replay(case, res=None):
         S, banned, what = case["grid"]
         r = _grid_chunk([(S, tuple(banned), what)], _boot.SEED)
         return [(v["sig"], v["msg"]) for v in r.violations]
+    if "grid_later" in case:
+        from .. import boot as _boot
+        r = _grid_later_chunk([tuple(case["grid_later"])], _boot.SEED)
+        return [(v["sig"], v["msg"]) for v in r.violations]
     U = universe(case["seed"], case["n"])
     n = U.n
     if "config_pref" in case:
@@ -388,6 +394,50 @@ def _grid_chunk(chunk, seed):
     return res
 
 
+def _grid_later_chunk(chunk, seed):
+    """grid half, second history: a mutable file is created while EVERY server is permitted; then server `b`
+    loses its certificate and server `d` leaves the grid (its shares become homeless); the file is overwritten.
+    No share number may be NEWLY placed on b (its old shares being updated in place is not judged)."""
+    from .. import grid as G, lib_mut, boot
+    from allmydata.mutable.publish import MutableData
+    res = common.Result()
+    for (S, b_, d_, what) in chunk:
+        g = G.Grid(S, client_kw=dict(k=1, n=4, happy=1, max_segment_size=64))
+        try:
+            c = g.clients[0]
+            r = lib_mut.create(g, what, b"version one")
+            g.quiesce()
+            if not r or r[0][0] != "ok":
+                raise G.HarnessError("create failed: %r" % (r,))
+            node = r[0][1]
+            si = node.get_storage_index()
+            before = set(k_ for k_ in lib_mut.mutable_shares(g, si))
+            for srv in list(c.storage_broker.servers):
+                i = g.ids.index(srv.get_serverid())
+                if i == b_:
+                    srv.permitted = False
+                if i == d_:
+                    c.storage_broker.servers.remove(srv)
+            r2 = g.wait(node.overwrite(MutableData(b"version two, longer")))
+            g.quiesce()
+            after = set(k_ for k_ in lib_mut.mutable_shares(g, si))
+            res.count("evaluations")
+            res.count("grid_operations")
+            res.count("grid_later:" + ("ok" if r2 and r2[0][0] == "ok" else "failed"))
+            homeless = sorted(sh for (sv, sh) in before if sv == d_)
+            if homeless:
+                res.count("grid_later_with_homeless_shares")
+            new_on_b = sorted(sh for (sv, sh) in after - before if sv == b_)
+            if new_on_b:
+                res.violation("share-newly-placed-on-unpermitted-server:" + what, {"grid_later": [S, b_, d_, what]},
+                              "%s file on %d servers: after server %d lost its certificate and server %d left (its shares %r became homeless), the overwrite placed share(s) %r on server %d (shares before: %r)"
+                              % (what, S, b_, d_, homeless, new_on_b, b_, sorted(before)))
+            boot.R.take_errors(); boot.take_logged()
+        finally:
+            g.close()
+    return res
+
+
 def run(tier, seed):
     gc.collect()
     gc.freeze()     # keep forked workers from copying the whole (read-only) heap on their first collection
@@ -406,6 +456,8 @@ def run(tier, seed):
     res.merge(common.pmap(_config_chunk, [(n, pref) for n, _ in plan for pref in subsets(n)], (seed,), chunks=1))
     gitems = [(S, tuple(b), what) for S in (3, 4, 5) for b in ([0], [1], [S - 1], [0, 1]) for what in ("immutable", "SDMF", "MDMF")]
     res.merge(common.pmap(_grid_chunk, gitems, (seed,)))
+    litems = [(S, b_, d_, what) for S in (2, 3, 4, 5) for b_ in range(S) for d_ in range(S) if b_ != d_ for what in ("SDMF", "MDMF")]
+    res.merge(common.pmap(_grid_later_chunk, litems, (seed,)))
     n = plan[0][0]
     orders = plan[0][1]
     cov = {
